@@ -4,7 +4,7 @@ children: list of (behaviour, how-started) with behaviour in
     'R' sleep(a) then return a symbolic value      'E' sleep(a) then raise E_i
     'B' block until cancelled, re-raise            'C' block; on cancel shielded cleanup sleep(b) (2 steps); re-raise
     'S' on cancel swallow once and checkpoint again (must be interrupted again), then re-raise
-    'X' block; on cancel raise E_i from the cleanup
+    'X' block; on cancel raise E_i from the cleanup      'W' block; on cancel swallow it and return a value
     'G' sleep(a), spawn a grandchild ('R') into the same group, return
     'N' open a nested task group with one 'B' child and one 'R' child
     'L' sleep(a) then start a late sibling AFTER the group may already be cancelled (start_soon inside try)
@@ -78,6 +78,8 @@ def scn(sym, cov, props, children, body="fall", env=(), eager=False, T=1, J=2):
 
     async def child(key, beh, i, tg, *, task_status=TASK_STATUS_IGNORED):
         r = mk(key)
+        r["first_step_cycle"] = loop.cycles
+        r["first_step_tick"] = loop.time()
         tasks[key] = asyncio.current_task()
         try:
             step(key)
@@ -115,6 +117,8 @@ def scn(sym, cov, props, children, body="fall", env=(), eager=False, T=1, J=2):
                 await anyio.sleep_forever()
             except asyncio.CancelledError:
                 r["cancel_seen"] += 1
+                r.setdefault("cancel_cycle", loop.cycles)
+                r.setdefault("cancel_tick", loop.time())
                 step(key)
                 if beh == "C":
                     with CancelScope(shield=True):
@@ -131,6 +135,11 @@ def scn(sym, cov, props, children, body="fall", env=(), eager=False, T=1, J=2):
                         raise
                 elif beh == "X":
                     raise fail(key, "X-" + key)
+                elif beh == "W":
+                    # swallow the cancellation and finish normally with a value
+                    r["outcome"] = "returned"
+                    r["value"] = v[i]
+                    return v[i]
                 raise
         except asyncio.CancelledError:
             r["outcome"] = "cancelled"
@@ -151,6 +160,7 @@ def scn(sym, cov, props, children, body="fall", env=(), eager=False, T=1, J=2):
 
         def fire(act):
             state["fired"].append((act["kind"], loop.cycles))
+            state.setdefault("fired_ticks", []).append((act["kind"], loop.time()))
             k = act["kind"]
             if state["exited"] and k in ("host",):
                 return
@@ -210,6 +220,19 @@ def scn(sym, cov, props, children, body="fall", env=(), eager=False, T=1, J=2):
                         if body == "cancel":
                             tg.cancel_scope.cancel()
                             await anyio.sleep(0)
+                        if body == "shielded-spawn":
+                            # the host sits in a shielded section (e.g. cleanup) and starts a task in its group,
+                            # which may already be cancelled by then (environment 'group'/'outer' action)
+                            with CancelScope(shield=True):
+                                await anyio.sleep(c)
+                                state["spawn_cycle"] = loop.cycles
+                                state["spawn_cancelled"] = tg.cancel_scope.cancel_called or outer.cancel_called
+                                tg.start_soon(child, "sp", "B", 0, tg)
+                                await anyio.sleep(T + 1)
+                                state["shield_end_cycle"] = loop.cycles
+                                state["shield_end_tick"] = loop.time()
+                                if "sp" in rec:
+                                    state["sp_cancel_seen_in_shield"] = rec["sp"]["cancel_seen"]
                 finally:
                     # the very first instruction after the `async with`, however it was left
                     state["exited"] = True
@@ -300,6 +323,21 @@ def scn(sym, cov, props, children, body="fall", env=(), eager=False, T=1, J=2):
         for k, r in rec.items():
             if r["outcome"] is None:
                 bad("C02", "sibling-not-cancelled-after-failure", k)
+    # ---- C03: a task newly created inside an already cancelled scope is interrupted promptly -----------------
+    if body == "shielded-spawn" and "sp" in rec:
+        cancelled_by = [cy for (k, cy) in state["fired"] if k in ("group", "outer")]
+        cancel_ticks = [tk for (k, tk) in state.get("fired_ticks", []) if k in ("group", "outer")]
+        if cancelled_by and cancel_ticks[0] < state.get("shield_end_tick", 0):
+            # the scope was cancelled well before the host left its shielded section
+            r = rec["sp"]
+            ref = max(cancelled_by[0], r.get("first_step_cycle", 0))
+            ref_tick = max(cancel_ticks[0], r.get("first_step_tick", 0))
+            # within a few loop cycles AND without the loop going idle (no virtual time may pass: the delivery
+            # callback keeps the loop busy until the cancellation has landed)
+            if r.get("cancel_cycle") is None or r["cancel_cycle"] - ref > 4 or r["cancel_tick"] != ref_tick:
+                bad("C03", "new-task-in-cancelled-scope-not-interrupted", {"spawned_at": state.get("spawn_cycle"), "scope_cancelled_at": cancelled_by[0],
+                                                                            "child_cancelled_at": r.get("cancel_cycle"), "host_left_shield_at": state.get("shield_end_cycle")})
+            cov.hit("spawn-into-cancelled-scope-from-shielded-host", state.get("spawn_cancelled"))
     cov.hit("group-raised", "group" in out)
     cov.hit("two-failures", len(raised) >= 2)
     cov.hit("failure-from-cleanup", any(str(e).startswith("X-") for e in raised))
